@@ -273,6 +273,8 @@ def cond_term(c) -> str:
         return f"CNot ({cond_term(c[1])})"
     if k == "truth":
         return f"CTruth ({operand_term(c[1])})"
+    if k == "inset":
+        return "CInSet [" + "; ".join(val_term(v) for v in c[1]) + f"] ({operand_term(c[2])})"
     raise ValueError(c)
 
 
@@ -283,7 +285,7 @@ def cond_vars(c, acc=None) -> List[str]:
             if x[0] in ("attr", "var"):
                 if x[1] not in acc:
                     acc.append(x[1])
-            elif x[0] in ("cmp", "in", "and", "or", "not", "truth"):
+            elif x[0] in ("cmp", "in", "and", "or", "not", "truth", "inset"):
                 cond_vars(x, acc)
     return acc
 
@@ -334,6 +336,8 @@ def build_query(q: dict, lw: LiveWorld):
             return not_(bc(c[1]))
         if k == "truth":
             return ex(c[1])
+        if k == "inset":
+            return in_(ex(c[2]), frozenset(c[1]) if len(c[1]) % 2 else set(c[1]))
         raise ValueError(c)
     quant = the if q["the"] else an
     sel = vs[q["sel"]]
@@ -490,6 +494,12 @@ def gen_query(rng: core.Rng, spec: List[dict], mode: str) -> dict:
                 return ["in", ["lit", rng.choice(["Body1xx", "abcABC", "xBox"])], a]                 # in_(col, 'hay') -> instr
             if r3 < 0.7:
                 return ["truth", a]
+            if r3 < 0.76 and a[1] == sel:
+                return ["inset", sorted({lit(k) if lit(k) is not None else 0 for _ in range(rng.randint(1, 3))}, key=str), a]
+            if r3 < 0.86 and sel_c in ("Connection", "FixedConnection", "PrismaticConnection") and a[1] == sel and any(o["c"] in ("Body", "Handle", "Container") for o in spec):
+                vars_["b"] = "Body"
+                rel = ["attr", sel, [rng.choice(["parent", "child"])]]
+                return ["cmp", "==", ["var", "b"], rel] if rng.chance(0.6) else ["cmp", "==", rel, ["var", "b"]]
             if r3 < 0.8 and sel_c in ("Pose",) and a[1] == sel:
                 pv = "p"
                 vars_[pv] = "Position"
@@ -570,8 +580,9 @@ def sweep_queries(full: bool) -> List[dict]:
 # classes computed in Coq (EqlToSql.classes).  OPEN: a listed open finding may explain a memory/SQL difference there.
 # The others were repaired by fix: commits (now rejections) -- a difference explained only by them is a VIOLATION.
 ALL_BITS = {1: "K_othervar", 2: "K_null", 4: "K_relop", 16: "K_strop", 32: "K_varoperand", 64: "K_noneorder",
-            128: "K_strtruth", 256: "K_eqjoin_dropped", 512: "K_valueeq", 1024: "K_or_join", 2048: "K_setof"}
-OPEN_BITS = {2: "K_null", 512: "K_valueeq", 2048: "K_setof"}
+            128: "K_strtruth", 256: "K_eqjoin_dropped", 512: "K_valueeq", 1024: "K_or_join", 2048: "K_setof",
+            4096: "K_setlit", 8192: "K_namedvar"}
+OPEN_BITS = {2: "K_null", 512: "K_valueeq", 4096: "K_setlit", 8192: "K_namedvar"}
 KNOWN_BITS = OPEN_BITS
 
 
